@@ -17,7 +17,10 @@ def jobs(tier, seed):
     def J(name, **cfg): out.append({'entry': 'h_c08', 'harness': 'h_c06.cpp', 'name': name, 'cfg': cfg})
     for (P, C, S) in shapes:
         for fam in (0, 1):
-            for mut in range(9): J('handover-then-mutate-%s' % ('append' if fam == 0 else 'indexed'), family=fam, mutator=mut, P=P, C=C, S=S)
+            for mut in range(9):
+                J('handover-then-mutate-%s' % ('append' if fam == 0 else 'indexed'), family=fam, mutator=mut, P=P, C=C, S=S, pre=0, at=0)
+                if fam == 1:
+                    for at in (0, 1): J('handover-then-mutate-replace', family=1, mutator=mut, P=P, C=C, S=S, pre=2, at=at)
         for times in ((2, 3) if tier == 'quick' else (2, 3, 4)):
             for col in (0, 1, 2, 3):
                 if col == 2 and C == 0: continue          # analog(name) needs existing sub-frames
